@@ -26,7 +26,7 @@ sys.path.insert(0, HERE)
 import extract  # noqa: E402
 
 REPO = os.environ.get("VERIF_REPO", "/repo")
-BUILD = os.path.join(VERIF, "build")
+BUILD = os.environ.get("VERIF_BUILD", os.path.join(VERIF, "build"))
 SEMANTIC = [
     "postcondition not satisfied", "precondition not satisfied", "invariant not satisfied",
     "assertion failed", "possible arithmetic underflow/overflow", "decreases not satisfied",
